@@ -104,6 +104,8 @@ def part_tile(W, H, k, acc):
                             % (x, y, rx, ry, gc, c), size=W * H)
                     if c == (0, 0):
                         want_eth.add((x, y))
+                    acc.outcome("board_offset_%d_%d" % ((e[0] - rx) % 12,
+                                                        (e[1] - ry) % 12))
             acc.evaluations += 1
             try:
                 got = list(g.spinn5_eth_coords(W, H, rx, ry))
@@ -219,6 +221,7 @@ def part_fpga(acc):
                 leaves = not on_board(x + dx, y + dy)
                 got = g.spinn5_fpga_link(x, y, Links(l))
                 case = dict(part="fpga", chip=[x, y], link=l)
+                acc.outcome("fpga_link" if leaves else "internal_link")
                 if (got is not None) != leaves:
                     acc.violation(
                         dict(kind="fpga_presence"), case,
